@@ -214,7 +214,7 @@ def resolveAll (deps : List Deployment) (fuel : Nat) : List TargetSpec → Excep
                  | .ok xs => .ok (x :: xs)
 
 /-- the `LocalTarget()` of the `else` branch -/
-def localTarget : Resolved := ⟨"__LOCAL__", defaultWorkdir "local", none, 0⟩
+def localTarget : Resolved := ⟨"__LOCAL__", defaultWorkdir "local", none, 1⟩
 
 /-- `get_binding_config(name, target_type, workflow_config)` on the parts of `name` -/
 def getBindingConfig (deps : List Deployment) (t : Trie BConfig) (path : Path) (k : Kind) :
